@@ -592,6 +592,9 @@ func (r *multiCIDRRangeAllocator) Occupy(clusterCIDR *cidrset.ClusterCIDR, cidr 
 	if err != nil {
 		return err
 	}
+	if currCIDRSet == nil {
+		return fmt.Errorf("clusterCIDR %s has no cidrSet for the ip family of cidr %v", clusterCIDR.Name, cidr)
+	}
 
 	if err := currCIDRSet.Occupy(cidr); err != nil {
 		return fmt.Errorf("unable to occupy cidr %v in cidrSet", cidr)
@@ -606,6 +609,9 @@ func (r *multiCIDRRangeAllocator) Release(logger klog.Logger, clusterCIDR *cidrs
 	currCIDRSet, err := r.associatedCIDRSet(clusterCIDR, cidr)
 	if err != nil {
 		return err
+	}
+	if currCIDRSet == nil {
+		return fmt.Errorf("clusterCIDR %s has no cidrSet for the ip family of cidr %v", clusterCIDR.Name, cidr)
 	}
 
 	if err := currCIDRSet.Release(cidr); err != nil {
@@ -710,6 +716,10 @@ func (r *multiCIDRRangeAllocator) occupyServiceCIDR(clusterCIDR *cidrset.Cluster
 	cidrSet, err := r.associatedCIDRSet(clusterCIDR, serviceCIDR)
 	if err != nil {
 		return err
+	}
+	// The ClusterCIDR has no range of the service CIDR's ip family: nothing to filter out.
+	if cidrSet == nil {
+		return nil
 	}
 
 	cidr := cidrSet.ClusterCIDR
